@@ -156,7 +156,7 @@ def main(tier):
             elif c.get("exact") and not st["bit_equal_to_linear"]:
                 ck.violation(f"route {name} and F.linear disagree on exact operands (every partial sum representable)", {"case": cfg, "route": st, "linear": {k: r[k] for k in ("maxdiff", "refmax")}})
     ck.assumptions += [
-        "torch.matmul / torch._int_mm / torch._weight_int8pack_mm are MODELLED as sums of products (exact-arithmetic theorems); their floating-point accumulation error is bounded by the audit's analytic bound (K+3)*u_acc*sum|a||w| + output rounding, not proved",
+        "torch.matmul / torch._int_mm / torch._weight_int8pack_mm are MODELLED as accumulation trees over the K products of the contraction: the exact-arithmetic theorems give their value, C07_accumulation_error (Flocq, any order, with or without FMA) bounds their rounding error by ((1+u)^h - 1)*sum|a||w| + n(1+u)^h*eta, of which the audit's bound (K+2)*u_acc*sum|a||w| + output rounding is the first-order instance; that the kernels are such trees is assumed",
         "CUDA / MPS routes are proved about (decision logic read from the source) but never executed here",
     ]
     ck.finish("make -C coq ; coqc GenMM.v TieC07.v C07.v (per run, against /repo's current source)", trusted_extra=["translators/gen_mm.py (routing-decision reader, AST fingerprints)", "Reals axioms"], extra_cov={"programs": len(cases)})
